@@ -6,6 +6,7 @@
 -/
 import CB.Props.C06
 import CB.Lemmas.GenBitsChoice
+import CB.Lemmas.GenChainsCmp
 namespace CB.P06G
 open CB
 
@@ -77,6 +78,65 @@ theorem model_is_translated_source (x y : BitVec 64) (p : Bool) :
     selectWord x.toNat y.toNat (mask p) = (Gen.Choice.select_word (GenBits.ofBool p) x y).toNat :=
   ⟨GenBits.fromWordLt_bridge x y, GenBits.fromWordLe_bridge x y, GenBits.fromWordEq_bridge x y,
    GenBits.fromWordNonzero_bridge x, GenBits.selectWord_bridge p x y⟩
+
+/-! ## T06.G2 — the SOURCE of the limb loops `Uint::{is_nonzero, eq, lt, gt, lte}`, regenerated on every run
+(tools/translate.py → CB/Gen/Chains.lean: src/uint/cmp.rs over the `Uint::sbb` of src/uint/sub.rs)
+
+A `Uint<LIMBS>` is the list of its limbs (`List (BitVec 64)`, little endian), `LIMBS` an explicit argument, each
+`while i < LIMBS` loop a recursive auxiliary definition; `GenChains.nats l` is `l.map BitVec.toNat`.  For EVERY limb count. -/
+
+/-- the hand-written model of the comparisons (what `uint_eq_spec`, `uint_lt_spec`, … of CB/Props/C06.lean are proved about)
+    IS the translated source -/
+theorem chain_model_is_translated_source (a b : List (BitVec 64)) (h : a.length = b.length) :
+    isNonzero (GenChains.nats a) = (Gen.Chains.Uint.is_nonzero a.length a).toNat ∧
+    ueq (GenChains.nats a) (GenChains.nats b) = (Gen.Chains.Uint.eq a.length a b).toNat ∧
+    ult (GenChains.nats a) (GenChains.nats b) = (Gen.Chains.Uint.lt a.length a b).toNat ∧
+    ugt (GenChains.nats a) (GenChains.nats b) = (Gen.Chains.Uint.gt a.length a b).toNat ∧
+    ulte (GenChains.nats a) (GenChains.nats b) = (Gen.Chains.Uint.lte a.length a b).toNat :=
+  ⟨GenChains.isNonzero_bridge a, GenChains.ueq_bridge a b h, GenChains.ult_bridge a b h, GenChains.ugt_bridge a b h,
+   GenChains.ulte_bridge a b h⟩
+
+/-- the TRANSLATED `Uint::lt` (borrow of the `sbb` chain) is the order on values: truthy exactly when `val a < val b` -/
+theorem src_uint_lt_exact (a b : List (BitVec 64)) (h : a.length = b.length) :
+    Gen.Chains.Uint.lt a.length a b = GenBits.ofBool (decide (val (GenChains.nats a) < val (GenChains.nats b))) := by
+  have hl : (GenChains.nats a).length = (GenChains.nats b).length := by
+    rw [GenChains.nats_length, GenChains.nats_length, h]
+  apply BitVec.eq_of_toNat_eq
+  rw [GenBits.ofBool_toNat, ← GenChains.ult_bridge a b h]
+  exact P06.uint_lt_spec (GenChains.nats_WF a) (GenChains.nats_WF b) hl
+
+/-- the TRANSLATED `Uint::gt`, `Uint::lte` -/
+theorem src_uint_gt_lte_exact (a b : List (BitVec 64)) (h : a.length = b.length) :
+    Gen.Chains.Uint.gt a.length a b = GenBits.ofBool (decide (val (GenChains.nats b) < val (GenChains.nats a))) ∧
+    Gen.Chains.Uint.lte a.length a b = GenBits.ofBool (decide (val (GenChains.nats a) ≤ val (GenChains.nats b))) := by
+  have hl : (GenChains.nats a).length = (GenChains.nats b).length := by
+    rw [GenChains.nats_length, GenChains.nats_length, h]
+  constructor <;> apply BitVec.eq_of_toNat_eq <;> rw [GenBits.ofBool_toNat]
+  · rw [← GenChains.ugt_bridge a b h]
+    exact P06.uint_gt_spec (GenChains.nats_WF a) (GenChains.nats_WF b) hl
+  · rw [← GenChains.ulte_bridge a b h]
+    exact P06.uint_lte_spec (GenChains.nats_WF a) (GenChains.nats_WF b) hl
+
+/-- the TRANSLATED `Uint::eq`: truthy exactly when the values are equal -/
+theorem src_uint_eq_exact (a b : List (BitVec 64)) (h : a.length = b.length) :
+    Gen.Chains.Uint.eq a.length a b = GenBits.ofBool (decide (val (GenChains.nats a) = val (GenChains.nats b))) := by
+  have hl : (GenChains.nats a).length = (GenChains.nats b).length := by
+    rw [GenChains.nats_length, GenChains.nats_length, h]
+  apply BitVec.eq_of_toNat_eq
+  rw [GenBits.ofBool_toNat, ← GenChains.ueq_bridge a b h]
+  exact P06.uint_eq_spec (GenChains.nats_WF a) (GenChains.nats_WF b) hl
+
+/-- the TRANSLATED `Uint::is_nonzero`: truthy exactly when the value is not zero -/
+theorem src_uint_is_nonzero_exact (a : List (BitVec 64)) :
+    Gen.Chains.Uint.is_nonzero a.length a = GenBits.ofBool (decide (val (GenChains.nats a) ≠ 0)) := by
+  apply BitVec.eq_of_toNat_eq
+  rw [GenBits.ofBool_toNat, ← GenChains.isNonzero_bridge a]
+  exact P06.uint_is_nonzero_spec (GenChains.nats_WF a)
+
+/-- evaluation: the translated functions run (two limbs: `2^64 < 2^64 + 1`, equal values, a non-zero value) -/
+example : Gen.Chains.Uint.lt 2 [0#64, 1#64] [1#64, 1#64] = ~~~0#64 := by decide
+example : Gen.Chains.Uint.eq 2 [5#64, 1#64] [5#64, 1#64] = ~~~0#64 := by decide
+example : Gen.Chains.Uint.is_nonzero 2 [0#64, 4#64] = ~~~0#64 := by decide
 
 
 end CB.P06G
